@@ -613,6 +613,23 @@ class Normalizer:
             free = {n.id for n in ast.walk(lam_ast.body) if isinstance(n, ast.Name)} - set(names)
             shadowed = any(f.id in sc or (free & set(sc)) for sc in self.scopes)
             if self.env.get(f.id, ("",))[0] == "lam" and len(names) == len(e.args) and not shadowed:
+                def plain(a):
+                    return isinstance(a, (ast.Name, ast.Constant)) or (isinstance(a, ast.Attribute) and plain(a.value))
+                if all(plain(a) for a in e.args):
+                    # arguments that are plain access paths are put into the body as they are written: the body is then read with
+                    # their types (getLabels = methodcaller("m"); getLabels(self.x)  ==  self.x.m())
+                    import copy
+                    amap = dict(zip(names, e.args))
+
+                    class _Subst(ast.NodeTransformer):
+                        def visit_Name(self, node):
+                            if isinstance(node.ctx, ast.Load) and node.id in amap:
+                                return copy.deepcopy(amap[node.id])
+                            return node
+                    body2 = _Subst().visit(copy.deepcopy(lam_ast.body))
+                    ast.copy_location(body2, e)
+                    ast.fix_missing_locations(body2)
+                    return self.norm(body2)
                 scope = {n: self.norm(a) for n, a in zip(names, e.args)}
                 self.scopes.append(scope)
                 try:
@@ -685,6 +702,15 @@ class Normalizer:
             # a one-parameter lambda value applied on the spot (a selector handed in as an argument): its body at that argument
             inner = [x for x in T.subterms(fv[2]) if x[0] in ("lam", "comp")]
             bvs = {x for x in T.subterms(fv[2]) if x[0] == "bv"}
+            b0 = fv[2]
+            if b0[0] == "mcall" and b0[1][0] == "bv" and not b0[3] and not b0[4] and len(e.args) == 1 and \
+                    isinstance(e.args[0], (ast.Name, ast.Attribute)):
+                # methodcaller("m") applied to a plain access path: read as the method call it is, with the receiver's type
+                import copy
+                call2 = ast.Call(func=ast.Attribute(value=copy.deepcopy(e.args[0]), attr=b0[2], ctx=ast.Load()), args=[], keywords=[])
+                ast.copy_location(call2, e)
+                ast.fix_missing_locations(call2)
+                return self.norm(call2)
             if not inner and len(bvs) <= 1:
                 return T.substitute(fv[2], {b: args[0] for b in bvs})
         return ("mcall", fv, "__call__", args, kwargs)
